@@ -36,7 +36,8 @@ CORPUS = ["address_line_1", "ipv4_address", "x_y_z", "HTTPStatus", "fooBar", "fo
           "camelCaseName", "UPPER_CASE", "Mixed_Case", "x2y", "utf8", "utf_8", "int32_value", "is_ok", "class_", "type_url",
           "json_name", "oneof_index", "proto3_optional", "deprecated_legacy_json_field_conflicts", "GetUInt64", "kabobCase",
           "trailing__", "A_B_C", "a_b_c", "aB", "Ab", "ABc", "AbC", "a_B", "A_b", "iOS", "macOS", "e2e", "k8s", "s3_bucket",
-          "field1", "field_1", "Field1", "FIELD_1", "f1eld", "l10n", "i18n_key"]
+          "field1", "field_1", "Field1", "FIELD_1", "f1eld", "l10n", "i18n_key", "SHA256sum", "MD5hash", "HTTP2xx", "UTF8string",
+          "display_name", "displayName", "DisplayName", "page_token", "next_page_token", "etag", "uid", "create_time"]
 
 
 def plan(tier, seed):
@@ -103,6 +104,38 @@ def shape_py(py: str) -> str:
     return "+".join(c) or "plain"
 
 
+# Frozen copy of the documented word-splitting rule (betterproto.casing, pinned commit), used ONLY to decide whether
+# a failing key belongs to the recorded design-level finding KF12; it is never the oracle.  Classifying by the tree's
+# own output would let a change of the splitting rule hide inside the known class.
+_R_SYMBOLS, _R_WORD, _R_WORD_UPPER = "[^a-zA-Z0-9]*", "[A-Z]*[a-z]*[0-9]*", "[A-Z]+(?![a-z])[0-9]*"
+
+
+def ref_snake(x: str) -> str:
+    def sub(g):
+        if not g[3]:
+            return ""
+        return ("" if g[1] is not None else "_") + g[3].lower()
+
+    return re.sub(f"(^)?({_R_SYMBOLS})({_R_WORD_UPPER}|{_R_WORD})", sub, x)
+
+
+API_NAMES = ["parse", "load", "dump", "is_set", "to_json", "from_json", "to_pydict", "FromString", "SerializeToString",
+             "parse_", "Parse", "isSet", "toJson"]  # Message API names the harness itself does not call on the class
+
+
+class _Bystander:
+    cls = None
+
+
+def _bystander(bp):
+    """another message type (no field in common with any tested one) that sees every key first -- unknown keys are
+    legal and ignored, and must not influence how a different class maps the same key"""
+    if _Bystander.cls is None:
+        _Bystander.cls = dataclasses.make_dataclass("Bystander", [("zq_unrelated_zq", int, bp.int32_field(1))], bases=(bp.Message,),
+                                                    eq=False, repr=False)
+    return _Bystander.cls
+
+
 def ident_ok(s) -> bool:
     return isinstance(s, str) and s.isidentifier() and not keyword.iskeyword(s)
 
@@ -158,7 +191,10 @@ def check_identifier(x: str, res: Result, naming, bp):
         res.violation("usable", ["make-class", sh, "raised:" + type(e).__name__], f"field name {py!r} (from {x!r}) cannot carry a field: {e!r}", w)
         return
     m = cls(**{py: 42})
-    sh = shape_py(py)
+    sh = shape_py(ref_snake(x))
+    if ref_snake(x) != bp.casing.snake_case(x):
+        res.counters["snake_case_differs_from_frozen_rule"] += 1
+    by = _bystander(bp)
     keys = {}
     for cname in ("CAMEL", "SNAKE"):
         try:
@@ -175,6 +211,10 @@ def check_identifier(x: str, res: Result, naming, bp):
             res.counters["key_roundtrips"] += 1
             try:
                 if form == "classmethod":
+                    try:
+                        by.from_dict({key: 41})
+                    except Exception:
+                        pass
                     m2 = cls.from_dict({key: 42})
                 elif form == "instance":
                     m2 = cls().from_dict({key: 42})
@@ -217,7 +257,7 @@ def run_shard(shard) -> Result:
         res.extra["exhaustive_max_len"] = shard["max_len"]
         res.sample({"exhaustive": f"all identifiers of length <= {shard['max_len']} over {{a,B,1,_}}", "example": "aB_1"})
     elif k == "lists":
-        names = set(keyword.kwlist) | set(keyword.softkwlist) | set(dir(builtins)) | set(CORPUS)
+        names = set(keyword.kwlist) | set(keyword.softkwlist) | set(dir(builtins)) | set(CORPUS) | set(API_NAMES)
         for x in sorted(names):
             if re.fullmatch(r"[A-Za-z_][A-Za-z0-9_]*", x):
                 check_identifier(x, res, naming, bp)
